@@ -63,4 +63,15 @@ def Filters.mapCodes (n : String → String) (f : Filters) : Filters :=
 def queryN (norm : String → String) (k : Kind) (gs : List Group) (f : Filters) : Except ErrKind (List Nat) :=
   query k (gs.map (Group.mapCodes norm)) (f.mapCodes norm)
 
+/-! ## the name filter of the accessors -/
+
+/-- `get_measurements(name=n)`: `find_content_items(root_item, name=n, value_type=NUM, relationship_type=CONTAINS)` -/
+def measurementsNamed (g : Group) (n : String) : List (String × String) :=
+  (g.items.filter (fun it => it.name == n && it.vt == "NUM" && it.rel == "CONTAINS")).map (fun it => (it.name, it.value))
+
+/-- `get_qualitative_evaluations(name=n)` -/
+def evaluationsNamed (g : Group) (n : String) : List (String × String) :=
+  (g.items.filter (fun it => it.name == n && it.vt == "CODE" && it.rel == "CONTAINS" && !reservedCodeNames.contains it.name)).map
+    (fun it => (it.name, it.value))
+
 end HdVerif.SRReport
